@@ -14,7 +14,9 @@ package main
 // `_args` the real resolver delivered to every stage job and the recorded
 // top-level outs of the same Tier-A run.
 //
-// The theorem `resolver_refines_den_plain_checked` is replayed on every program
+// The refinement theorems with node-wise store (`resolver_refines_den_mapstatic_checked` for map calls
+// of stages, `resolver_refines_den_mappedpipes_checked` for mapped pipelines / nesting; both cover
+// plain programs) are replayed on every program
 // whose decidable hypotheses hold (`frag=1`): twoPhase must equal den.
 
 import (
@@ -368,7 +370,7 @@ func c01StaticCheck(c *Ctx, cases []c01StaticCase, stream string, reported map[s
 				r.violate(Violation{Kind: "correspondence", Key: "C01:two-phase-vs-den",
 					What:   "twoPhase differs from den on a program that passes wellTypedB/acyclicB (the driver's encoding or the theorem's replay is broken)",
 					Input:  map[string]interface{}{"program": cs.src, "name": cs.name},
-					Broken: "resolver_refines_den_plain_checked"})
+					Broken: "resolver_refines_den_mapstatic_checked / resolver_refines_den_mappedpipes_checked"})
 			}
 		}
 		if rep.den == "eq" {
